@@ -374,7 +374,7 @@ void Hist::connect(int c, int server, const Op &op, const std::function<void()> 
         }
         if (!after.ticket.empty() && after.ticket != before.ticket) { Issued J = I; J.mech = "ticket"; issued["ticket:" + after.ticket] = J; }
         if (!after.psk.empty() && after.psk != before.psk) { Issued J = I; J.mech = "psk13"; issued["psk13:" + after.psk] = J; }
-        if (srv_alert && !before.id.empty()) { auto it = issued.find("id:" + before.id); if (it != issued.end()) { it->second.invalidated = true; } }
+        if (srv_alert && resumed_s && !before.id.empty()) { auto it = issued.find("id:" + before.id); if (it != issued.end()) { it->second.invalidated = true; } }     // only a session that actually ran on that entry invalidates it
     }
     last_edit.clear();
     if (hold && ok) { w.filter = nullptr; fp.add(w.fingerprint()); held.push_back(std::move(wp)); counters["conn.held_open"]++; return; }
